@@ -1,1 +1,2 @@
+import Cpppo.Props.C17
 import Cpppo.Props.C19
